@@ -1,7 +1,8 @@
 ------------------------------ MODULE MCClean ------------------------------
 (* Bounded instance of Clean.tla: the local peer L, two possible further delegates d1 d2, a     *)
 (* followed peer f and another peer o; every non-empty delegate set over {L, d1, d2}; every     *)
-(* combination of namespace states; behaviours of up to MaxOps actions.                         *)
+(* combination of namespace states; identity document readable / missing / of an unsupported    *)
+(* version; behaviours of up to MaxOps actions.                                                 *)
 EXTENDS Clean, Json
 
 MCNode == {"L", "d1", "d2", "f", "o"}
@@ -12,7 +13,9 @@ MCNsStates == [n \in MCNode |->
                    [] n = "f" -> {"absent", "signed"}
                    [] n = "o" -> {"absent", "unsigned", "signed", "corrupt"}]
 
+MCIdStates == {"ok", "missing", "unsupported"}
+
 \* one case per maximal behaviour
-Emit == PrintT(<<"CASE", ToJson([delegates |-> delegates, init |-> hist[1].pre, steps |-> hist])>>)
+Emit == PrintT(<<"CASE", ToJson([delegates |-> delegates, init |-> hist[1].pre, iddoc |-> hist[1].iddoc, steps |-> hist])>>)
 EmitInv == (Len(hist) > 0 /\ (Len(hist) = MaxOps \/ ~exists)) => Emit
 =============================================================================
